@@ -469,6 +469,8 @@ class Sym:
                 if res is None:
                     res = self.model(st, t, args)
                 if res is None:
+                    res = self.inline_pure(st, t, args)
+                if res is None:
                     nm = (t['f'].get('def') or t['f'].get('decl') or '?')
                     short = re.sub(r'<[^<>]*>', '', nm).split('::')[-1]
                     c = st.ncall.get(short, 0) + 1
@@ -513,6 +515,38 @@ class Sym:
             if k == 'unreachable':
                 return {'end': 'diverge', 'ret': None, 'events': st.events, 'assume': st.assume, 'state': st}
             return {'end': 'diverge', 'ret': None, 'events': st.events, 'assume': st.assume, 'state': st}
+
+    def inline_pure(self, st, t, args):
+        """One level of inter-procedural evaluation: a call to a small, synchronous helper of the
+        workspace whose arguments are plain values is evaluated on the helper's own body (same
+        oracle). Only used when it yields one single returning path; otherwise the call stays opaque.
+        (Extracting a private helper from a table function is a behaviour-preserving refactoring.)"""
+        depth = getattr(self, 'depth', 0)
+        callee = t['f'].get('def')
+        if depth >= 2 or not callee or not callee.startswith('yash_'):
+            return None
+        cb = self.F.bodies.get(callee)
+        if cb is None or cb.d.get('coroutine') or (self.F.fns.get(callee) or {}).get('async') or len(cb.blocks) > 80:
+            return None
+        vals = []
+        for a in args:
+            v = self.resolve(st, a)
+            if v is None or v[0] in ('ref', 'discr'):
+                return None
+            vals.append(v)
+        try:
+            sub = Sym(self.F, cb, oracle=self.oracle, max_visits=self.max_visits, max_paths=64, max_steps=20000)
+            sub.depth = depth + 1
+            outs = sub.run(init={i + 1: v for i, v in enumerate(vals)})
+        except SymLimit:
+            return None
+        except Exception:
+            return None
+        rets = [o for o in outs if o['end'] == 'return']
+        if len(rets) != 1 or len(outs) != len(rets):
+            return None
+        # the helper must be effect-free as far as the evaluator can see (no writes through its arguments)
+        return rets[0]['ret']
 
     def _finish_call(self, st, t, args, alt):
         lab, val = alt[0], alt[1]
@@ -1412,25 +1446,47 @@ def r5(cx):
     cx.site('loop_count: %s' % ' . '.join(seq))
     need = ['iter', 'rev', 'take_while', 'filter', 'take', 'count']
     pos = [seq.index(x) if x in seq else -1 for x in need]
-    if -1 in pos or pos != sorted(pos):
-        cx.violation(lc.fn, 'pipeline', 'loop_count must be iter().rev().take_while(retains_context).filter(== Loop)'
-                     '.take(max).count(); found %s' % seq, loc='%s:%d' % (pp_rel(lc.file), lc.line))
+    chain = -1 not in pos and pos == sorted(pos)
+    lloc = '%s:%d' % (pp_rel(lc.file), lc.line)
+    logical = F.logical(lc.root)
     du = Q.DefUse(lc)
-    for meth, what in (('take_while', 'retains_context'), ('filter', 'Frame::Loop')):
-        ok = False
-        for blk, t in Q.find_calls(lc, ['core::iter::traits::iterator::Iterator::' + meth]):
-            clo = du.origin(t['a'][1]) if len(t['a']) > 1 else {'k': '?'}
-            cdef = clo['rv'].get('def') if clo['k'] == 'agg' else None
-            cb = F.bodies.get(cdef) if cdef else None
-            if cb is not None:
-                if meth == 'take_while':
-                    ok = bool(Q.find_calls(cb, [rc]))
-                else:
-                    ok = bool(Q.find_aggregates(cb, FRAME, 'Loop')) and bool(Q.find_calls(cb, EQ))
-        cx.site('loop_count: %s closure uses %s: %s' % (meth, what, ok))
-        if not ok:
-            cx.violation(lc.fn, 'closure:%s' % meth, 'the %s step of loop_count does not test %s' % (meth, what),
-                         loc='%s:%d' % (pp_rel(lc.file), lc.line))
+    # elements every implementation needs, whatever its shape (iterator chain or explicit loop)
+    has_rev = any(Q.find_calls(b, [re.compile(r'Iterator::rev$'), re.compile(r'DoubleEndedIterator::next_back$'),
+                                   re.compile(r'::last$')]) for b in logical)
+    has_barrier = any(Q.find_calls(b, [rc]) for b in logical)
+    has_loop_test = any((Q.find_aggregates(b, FRAME, 'Loop') and Q.find_calls(b, EQ + NE)) for b in logical) or \
+        any(ec and ec[0]['k'] == 'discr' and 'stack::Frame' in ec[0]['ty']
+            for b in logical for blk in b.live_blocks() for ec in [Q.edge_condition(F, b, Q.DefUse(b), blk)])
+    uses_max = any(Q.operand_name(lc, du, a) == 'max_count' for blk, t in lc.calls() for a in t['a']) or \
+        any(s_['k'] == 'assign' and s_['rv']['k'] == 'binop' and 'max_count' in
+            (Q.operand_name(lc, du, s_['rv']['a']), Q.operand_name(lc, du, s_['rv']['b'])) for _, _, s_ in lc.stmts())
+    cx.site('loop_count: form=%s innermost-first=%s barrier-test=%s loop-test=%s bounded-by-max=%s'
+            % ('iterator chain' if chain else 'other', has_rev, has_barrier, has_loop_test, uses_max))
+    if not has_rev:
+        cx.violation(lc.fn, 'not-innermost-first', 'loop_count does not scan the frame stack from the innermost frame', loc=lloc)
+    if not has_barrier:
+        cx.violation(lc.fn, 'closure:take_while', 'loop_count does not stop at the frames that break/continue must not cross '
+                     '(retains_context)', loc=lloc)
+    if not has_loop_test:
+        cx.violation(lc.fn, 'closure:filter', 'loop_count does not single out Frame::Loop', loc=lloc)
+    if not uses_max:
+        cx.violation(lc.fn, 'unbounded', 'loop_count is not capped by its max_count argument', loc=lloc)
+    if chain:
+        for meth, what in (('take_while', 'retains_context'), ('filter', 'Frame::Loop')):
+            ok = False
+            for blk, t in Q.find_calls(lc, ['core::iter::traits::iterator::Iterator::' + meth]):
+                clo = du.origin(t['a'][1]) if len(t['a']) > 1 else {'k': '?'}
+                cdef = clo['rv'].get('def') if clo['k'] == 'agg' else None
+                cb = F.bodies.get(cdef) if cdef else None
+                if cb is not None:
+                    if meth == 'take_while':
+                        ok = bool(Q.find_calls(cb, [rc]))
+                    else:
+                        ok = bool(Q.find_aggregates(cb, FRAME, 'Loop')) and bool(Q.find_calls(cb, EQ))
+            cx.site('loop_count: %s closure uses %s: %s' % (meth, what, ok))
+            if not ok:
+                cx.violation(lc.fn, 'closure:%s' % meth, 'the %s step of loop_count does not test %s' % (meth, what), loc=lloc)
+    # (an explicit-loop rewrite is accepted on the necessary elements above: its exact arithmetic is not decided)
 
 
 @RS.rule('C02.R5b', 'K-TABLE', 'break/continue request loop_count(n) levels and divert with count-1; outside a loop they fail')
@@ -1646,6 +1702,14 @@ def andor_oracle(n, first=None, rest_results=None):
             return mk_enum('Some', ('ref', ('M', 'rest%d' % nexts), ())) if nexts < n else mk_enum('None')
         if Q.callee_is(t, ['core::iter::adapters::peekable::Peekable::<I>::peek']):
             return mk_enum('Some', ('u', 'peeked')) if nexts < n else mk_enum('None')
+        # the same list walked as `let (last, init) = rest.split_last().unwrap(); for p in init {..}; last`
+        if Q.callee_is(t, ['core::slice::<impl [T]>::split_last']):
+            if n == 0:
+                return mk_enum('None')
+            return mk_enum('Some', ('agg', {'0': ('ref', ('M', 'rest%d' % (n - 1)), ()), '1': ('u', 'init')}, 'split_last'))
+        snexts = len([e for e in st.events if e[0] == 'call' and Q.callee_is(e[1], [re.compile(r'slice::iter::Iter<.*> as .*Iterator>::next$')])])
+        if Q.callee_is(t, [re.compile(r'slice::iter::Iter<.*> as .*Iterator>::next$')]):
+            return mk_enum('Some', ('ref', ('M', 'rest%d' % snexts), ())) if snexts < n - 1 else mk_enum('None')
         if Q.callee_is(t, ['core::option::Option::<T>::unwrap']):
             v = sym.resolve(st, args[0])
             return enum_field(v) if is_enum(v, 'Some') else None
@@ -1663,8 +1727,15 @@ def andor_oracle(n, first=None, rest_results=None):
     return oracle
 
 
+ANDOR_ITER = [re.compile(r'Peekable<I> as .*Iterator>::next$'), re.compile(r'slice::iter::Iter<.*> as .*Iterator>::next$')]
+
+
 def andor_traces(cx, F, n, **kw):
     body = F.main_body(exec_fn(F, 'AndOrList'))
+    if not Q.find_calls(body, ANDOR_ITER):
+        # fail closed: the walk over the pipelines is written in a way the evaluator has no model for
+        raise AnchorMissing('AndOrList::execute walks its pipelines in a way that is not modelled (neither a Peekable nor a '
+                            'slice iterator): no verdict on the and-or tables')
     outs = sym_paths(cx, F, body, andor_oracle(n, **kw), max_visits=n + 3)
     return body, [o for o in outs if o['end'] == 'return']
 
